@@ -251,6 +251,13 @@ func (db *DB) collectGarbage() (collectedCount uint64, done bool, err error) {
 	}
 	recycled := make(map[string]struct{}, len(recycledItems))
 	for _, item := range recycledItems {
+		// an access to the file after the candidates were read (or after
+		// its deletion was decided) moves its gc entry to a new access
+		// time; the entry that exists now is the one to delete, otherwise
+		// it survives the file
+		if ai, err := db.retrievalAccessIndex.Get(item); err == nil {
+			item.AccessTimestamp = ai.AccessTimestamp
+		}
 		// delete from retrieve, gc; a pinned root chunk stays stored
 		pinned, err := db.pinIndex.Has(item)
 		if err != nil {
